@@ -4,3 +4,4 @@ import Rp2.Props.C07
 #print axioms Rp2.C07.model_flows
 #print axioms Rp2.C07.model_final
 #print axioms Rp2.C07.model_accounts_once
+#print axioms Rp2.C07.model_holder_totals
